@@ -339,7 +339,7 @@ def check_determinism(ck, F, pv, rule="R09.5"):
     where = "src/r1cs/prover.rs"
     I = pv.I
     logged = {str(d["atom"].func) if d["atom"].is_Function else str(d["atom"]) for d in I.draw_log}
-    ok_prefix = ("aL", "aR", "aO", "wL", "wR", "wO", "wV", "vb", "v", "ch[", "SUM", "PROD", "_k", "_j", "n1", "n2", "pad[", "m", "B", "Bb", "G", "H")
+    ok_prefix = ("aL", "aR", "aO", "wL", "wR", "wO", "wV", "vb", "v", "ch[", "SUM", "PROD", "_k", "_j", "n1", "n2", "pad", "m", "B", "Bb", "G", "H")
     bad = set()
     things = list(pv.sinks.items())
     if pv.ipp:
